@@ -579,6 +579,18 @@ func c14Small(r *core.Run) {
 			r.Distinct([]byte("sig"), []byte{byte(t), byte(L >> 8), byte(L)})
 		}
 	}
+	// the documented defect "signature data size mismatch for type": every length 0..size+300 except the type's own is
+	// refused by the exact-length constructor, for every known type (the validator's side of the clause is the sweep above)
+	for _, t := range refmodel.KnownSigCodes {
+		size := refmodel.SigTable[t].SigLen
+		for L := 0; L <= size+300; L++ {
+			r.Evaluations.Add(1)
+			sg, err := signature.NewSignatureFromBytes(refmodel.Fill("sg", uint64(L), L), t)
+			if (err == nil) != (L == size) {
+				r.Violate("C14|signature.NewSignatureFromBytes|defect=data-length-differs-from-the-type's|constructor-verdict", fmt.Sprintf("type %d (signatures of %d bytes), %d bytes of data: err=%v, stored %d bytes", t, size, L, err, sg.Len()), core.Case{Kind: "small", Args: map[string]string{"what": "signature"}})
+			}
+		}
+	}
 	for t := 0; t < 256; t++ {
 		for _, pl := range [][]byte{nil, {1}, {0, 7, 0, 4}, refmodel.Fill("p", 1, 40), refmodel.Fill("p", 3, 72)} {
 			r.Evaluations.Add(1)
